@@ -156,6 +156,9 @@ package scan
 //@       o.currentStep == old(o.currentStep) + imax(old(o.step), 1) * o.numSteps
 //@   ensures[C18] ids-and-values-pair-up: result1 == nil && !isnil(result0) ==> forall k in 0..len(result0) :: len(result0[k].SampleIDs) == len(result0[k].Samples)
 //@   ensures[C02] invariant-kept: result1 == nil && !isnil(result0) ==> vsLoaded(o) && vsSought(o, 0, len(o.scanners), o.currentStep - o.offset)
+//@   ghostvar visited int = 0
+//@   at line "seriesTs = ts" set visited = 0
+//@   at line "_, v, ok, err := selectPoint(series.samples" set visited = currStep + 1
 //@   at scan.selectPoint assert[C02,C07] each-series-is-asked-at-the-steps-time-with-the-operators-lookback-and-offset:
 //@       $it == o.scanners[i].samples && $ts == ts + currStep*o.step && $lookbackDelta == o.lookbackDelta && $offset == o.offset
 //@   at line "vectors[currStep].SampleIDs = append(vectors[currStep].SampleIDs, series.signature)" assert[C02] sample-goes-to-its-steps-vector:
@@ -172,12 +175,14 @@ package scan
 //@   loop 1 invariant batch1b: !isnil(vectors) && fresh(vectors) && len(vectors) >= 1 && len(vectors) <= o.numSteps
 //@   loop 1 invariant batch1c: len(vectors) == o.numSteps || vectors[len(vectors)-1].T + o.step > o.maxt
 //@   loop 1 invariant batch1d: ts == old(o.currentStep) && o.currentStep == old(o.currentStep) && o.step == old(o.step) && o.numSteps == old(o.numSteps) && o.maxt == old(o.maxt)
+//@   loop 1 invariant[C02,C07] every-series-is-consulted-at-every-step-of-the-batch: i >= 1 ==> visited == len(vectors)
 //@   loop 1 invariant vectors1: vsVectors(o, vectors, ts)
 //@   loop 1 invariant sought1: vsSought(o, 0, i, vectors[len(vectors)-1].T - o.offset) && vsSought(o, i, len(o.scanners), ts - o.offset)
 //@   loop 2 invariant batch2: vsBatch(o, vectors, ts) && 0 <= i && i < len(o.scanners) && 0 <= currStep && currStep <= len(vectors) && seriesTs == ts + currStep*o.step &&
 //@       series.samples == o.scanners[i].samples && series.signature == o.scanners[i].signature
 //@   loop 2 invariant memo2-others: vsMemo(o, 0, i) && vsMemo(o, i+1, len(o.scanners))
 //@   loop 2 invariant memo2-this: memo_inv(o.scanners[i].samples.sn, o.scanners[i].samples.sT, o.scanners[i].samples.cur, o.scanners[i].samples.hasPrev, o.scanners[i].samples.lastSeek, o.scanners[i].samples.delta)
+//@   loop 2 invariant visited2: visited == currStep
 //@   loop 2 invariant vectors2: vsVectors(o, vectors, ts)
 //@   loop 2 invariant sought2-done: vsSought(o, 0, i, vectors[len(vectors)-1].T - o.offset)
 //@   loop 2 invariant sought2-todo: vsSought(o, i+1, len(o.scanners), ts - o.offset)
